@@ -1310,7 +1310,7 @@ class C05(Prop):
     # ---- oracle self-test: the string judge must reject hand-made bad traces (one per clause) ----
     def extra_checks(self, ctx, tier, rng):
         snap = "sp=-1 csp=-1 cg=u1 co=0 po=0 prog=0 ct=0 fp=-1 pc=null fio=0 vio=0 ctx=0 ld=0 rd=0 cgs=0 qv=0 mn=ok sn=ok"
-        probe = "caught *probe-err ; probe tp=u1 po=0 d=0 l=0 a=3,4 e=*probe-err  co=42 side in=0 hb=0"
+        probe = "caught *probe-err ; probe lit=2 lc=3 ve=5 tp=u1 po=0 d=0 l=0 a=3,4 e=*probe-err  co=42 side in=0 hb=0"
         head = ["base " + snap, "probe0 " + probe]
         hb1 = probe.replace("hb=0", "hb=1")     # a heart-beat case: the heart beat of t is on before every evaluation
 
@@ -1331,6 +1331,7 @@ class C05(Prop):
             ("mn", [out(["caught *x", "catch *x", "done 1"], snap.replace("mn=ok", "mn=blank"))], "restore fault mn"),
             ("sn", [out(["err *x", "fault-top"], snap.replace("sn=ok", "sn=blank"))], "restore fault sn"),
             ("probe", [out(["done 1"], pr=probe.replace("a=3,4", "a=3"))], "probe fault differs"),
+            ("probe-spread", [out(["err *x", "fault-top"], pr=probe.replace("lit=2", "lit=4"))], "probe fault differs"),
             ("probe-destruct", [out(["done 1"], pr=probe.replace("d=0", "d=*Only this_object() can be destructed"))], "probe fault differs"),
             ("half-install", [out(["caught nf", "catch nf", "done 1"], pr=probe.replace("in=0", "in=1"))], "half-install"),
             ("catch-value", [out(["caught *boom1", "catch *other", "done 1"])], "catch-value"),
